@@ -483,6 +483,8 @@ func TestVerifC05(t *testing.T) {
 	races := bal_slb.C05NewRaces()
 	defer races.Close()
 	idx := 0
-	bal_slb.VerifC05SLB(r, races, &idx)
+	// the (smaller) BalanceGslb seam first, so that an internal deadline on a loaded machine
+	// cuts the tail of the BalanceRR families rather than a whole seam
 	c05GSLB(r, races, &idx)
+	bal_slb.VerifC05SLB(r, races, &idx)
 }
